@@ -30,6 +30,29 @@ Definition multiset_eqb {A} (f : A -> A -> bool) (a b : list A) : bool :=
   Nat.eqb (length a) (length b) && forallb (fun x => Nat.eqb (count f x a) (count f x b)) a.
 
 (* ====================================================================== *)
+(* big bodies                                                              *)
+(* ====================================================================== *)
+(* A body of the upper end of the quantified range (1 MiB and just below) is
+   not spelt out in a case: both sides build it from (seed, length) as the 251
+   bytes [lcg_body seed 251] repeated (251 is prime: a shift, a truncation or a
+   4096-byte block lost or repeated changes the bytes that follow). Purely
+   structural, so a megabyte costs a fraction of a second where [lcg_body]
+   itself (one N division per byte) costs ~20 s. harness/tr_gen.go: cycBody. *)
+Fixpoint cyc_bytes (pat cur : bytes) (n : nat) : bytes :=
+  match n with
+  | O => []
+  | S m =>
+      match cur with
+      | c :: cs => c :: cyc_bytes pat cs m
+      | [] => match pat with
+              | [] => []
+              | p :: ps => p :: cyc_bytes pat ps m
+              end
+      end
+  end.
+Definition cyc_body (seed len : Z) : bytes := let pat := lcg_body seed 251 in cyc_bytes pat pat (Z.to_nat len).
+
+(* ====================================================================== *)
 (* wire format                                                             *)
 (* ====================================================================== *)
 (* proto.Marshal refuses what is not canonical (invalid UTF-8) *)
@@ -258,6 +281,13 @@ Definition rig_route (e : rpc) : route :=
       end
   end.
 
+(* the end-to-end rig's SourceToAddress: every non-empty source is at address 0 *)
+Definition e2e_route (e : rpc) : route :=
+  match r_header e with
+  | None => RtNoHeader
+  | Some h => match h_source h with [] => RtEmptySource | _ => RtAddr 0 end
+  end.
+
 Record hobs := mkHObs {
   ho_resps : list (Z * Z);           (* (request, status code) answered in this step *)
   ho_announced : list (Z * Z);       (* (address, connection) announced in this step *)
@@ -399,6 +429,11 @@ Inductive c19case :=
 | CHttp (interval timeout now : Z) (steps : list (list (hact bytes) * hobs))
 (* two GoatOverHttp instances over real HTTP: envelopes written on one end, envelopes read on the other *)
 | CHttpE2E (written : list rpc) (write_ok : list bool) (read : list (option rpc))
+(* one raw HTTP request against a GoatOverHttp behind a real listener, with a reader waiting on the
+   connection of every address: what ServeHTTP was given to read (after net/http's framing: chunked or
+   unknown length, a Content-Length that is larger / smaller than what is sent), the status it
+   answered, what the reader obtained. The rig's SourceToAddress maps every non-empty source. *)
+| CHttpRaw (b : hbody bytes) (status : Z) (delivered : option rpc)
 (* a direct observation that the property requires to hold (code: see lib/props/C19.py) *)
 | CAssert (code : Z) (holds : bool).
 
@@ -427,6 +462,15 @@ Definition check (c : c19case) : list nat :=
        | None => [] | Some _ => [1%nat] end) ++
       (if spec_http steps then [] else [2%nat])
   | CAssert _ b => if b then [] else [2%nat]
+  | CHttpRaw b status delivered =>
+      (* the classification IS the property (400 iff absent / unreadable / undecodable / no header /
+         no source; otherwise delivered, as the decoded value): a difference is both a disagreement
+         with the model and a failing input *)
+      let ok := match http_classify decode e2e_route b with
+                | V400 _ => (status =? 400) && match delivered with None => true | Some _ => false end
+                | VDeliver _ e => (status =? 200) && opt_eqb rpc_eqb delivered (Some e)
+                end in
+      if ok then [] else [1%nat; 2%nat]
   | CHttpE2E written oks read =>
       (if list_eqb (opt_eqb rpc_eqb) (map (fun e => decode (encode e)) written) read then [] else [1%nat]) ++
       (if forallb (fun b => b) oks && list_eqb (opt_eqb rpc_eqb) read (map Some written) then [] else [2%nat])
